@@ -103,6 +103,59 @@ func c20Run(j c20Job) *jobReport {
 				rep.Reasons[fmt.Sprintf("low accepted=%v", got)]++
 			}
 		}
+	case "mid":
+		// A server whose live window straddles 2^31 (the sign bit of a 32-bit timeslot): the same sweep as at the low
+		// end, observed through what the server stores. The window is put there by a crafted zero-device history record.
+		resetGlobals()
+		dir := freshDir("srv")
+		temp, srv := prepareServerDir(dir, "c20mid", true)
+		off := uint32(2016 * 1065220) // 2147483520 = 2^31 - 128, a week boundary
+		rec := weekRecord{Offset: off - mWeek}
+		must(os.WriteFile(filepath.Join(dir, "allDeviceStats.dat"), refWeekBytes(rec), 0644))
+		gca := key("gca")
+		must(os.WriteFile(filepath.Join(dir, "gcaPubKey.dat"), gca.Pub[:], 0644))
+		a := key("devA")
+		ea := authFor(1, a, 1000)
+		ea.Signature = glow.Sign(refAuthSigningBytes(ea), gca.Priv)
+		must(os.WriteFile(filepath.Join(dir, "equipment-authorizations.dat"), refAuthBytes(ea), 0644))
+		glow.SetCurrentTimeslot(off + 10)
+		sw := &srvWorld{Dir: dir, Temp: temp, Srv: srv}
+		if err := sw.start(); err != nil {
+			rep.fail("harness/mid-start", err.Error())
+			return rep
+		}
+		defer func() { sw.Close(); sw.Cleanup() }()
+		if got := sw.S.VerifSnapshot().ReportsOffset; got != off {
+			rep.fail("harness/mid-offset", fmt.Sprint(got, off))
+			return rep
+		}
+		used := map[int64]bool{}
+		for _, rel := range j.Arg {
+			now := int64(off) + int64(rel)
+			glow.SetCurrentTimeslot(uint32(now))
+			for d := -434; d <= 434; d++ {
+				ts := now + int64(d)
+				if used[ts] {
+					continue
+				}
+				want := d >= -432 && d <= 432 && ts >= int64(off) && ts < int64(off)+mWindow
+				before := len(sw.S.VerifSnapshot().Reports[1])
+				if p := safely(func() { sw.S.VerifInjectDatagram(signedReport(1, uint32(ts), 2, a.Priv)) }); p != "" {
+					rep.fail("panic/sign-bit-window", map[string]interface{}{"now": now, "timeslot": ts, "panic": firstLine(p)})
+					sw.Abandon()
+					return rep
+				}
+				rep.Evals++
+				got := len(sw.S.VerifSnapshot().Reports[1]) > before
+				if got {
+					used[ts] = true
+				}
+				if got != want {
+					rep.fail("window-comparison-wrong/sign-bit", map[string]interface{}{"offset": off, "now": now, "timeslot": ts, "accepted": got, "mathematically": want})
+				}
+				rep.Reasons[fmt.Sprintf("mid accepted=%v", got)]++
+			}
+		}
 	case "high":
 		// A server whose clock is within 432 slots of the end of the uint32 range. No window can hold such
 		// reports without its own end overflowing, so the acceptance comparison is observed through the
@@ -401,7 +454,8 @@ func init() {
 		jobs := []interface{}{
 			c20Job{Part: "low", Arg: []int{0, 1, 431, 432, 433, 900, 3500}},
 			c20Job{Part: "high", Arg: []int{100, 432, 433, 1000}},
-			c20Job{Part: "measure"},
+			c20Job{Part: "mid", Arg: []int{0, 100, 128, 129, 560, 3500}},
+			c20Job{Part: "measure"}, // must stay last
 		}
 		results := p.Map("c20", jobs, nil)
 		var meas c20Measure
@@ -428,7 +482,7 @@ func init() {
 				run.Distinct("class", k)
 				_ = v
 			}
-			if i == 2 {
+			if i == len(jobs)-1 {
 				meas = c20Measure{rep.Extra["H"], rep.Extra["Hneg"], rep.Extra["W"], rep.Extra["T"], rep.Extra["S"]}
 				for k, v := range rep.Extra {
 					if strings.HasPrefix(k, "SR:") {
@@ -556,7 +610,7 @@ func init() {
 		}
 		run.Coverage["evaluations"] = tsEvals + int64(evals)
 		run.Coverage["distinct_nontrivial"] = slots
-		run.Coverage["rule"] = "(a) production-tag binary: UnixToTimeslot/TimeslotToUnix for every timeslot 0..14316557 at slot start, +1 s and +299 s (thorough: every second of the 2^32-second domain), 1000 seconds before genesis and far earlier times; round trip to slot start, exact slot, monotone, pre-genesis refused; distinct = timeslots covered; (b) production constants read from the production build, CurrentTimeslot against the shimmed clock at 53 instants; (c) acceptance of own-key reports at every distance -434..+434 from the clock at both uint32 extremes on a live server (high end via a crafted zero-device history record), compared with the int64-exact predicate; (d) all states (now-offset, timer phase) of the rotation cadence under the production period with trigger, start-up threshold, half-width and window measured from the running implementation; model traces replayed against the real rotation loop"
+		run.Coverage["rule"] = "(a) production-tag binary: UnixToTimeslot/TimeslotToUnix for every timeslot 0..14316557 at slot start, +1 s and +299 s (thorough: every second of the 2^32-second domain), 1000 seconds before genesis and far earlier times; round trip to slot start, exact slot, monotone, pre-genesis refused; distinct = timeslots covered; (b) production constants read from the production build, CurrentTimeslot against the shimmed clock at 53 instants; (c) acceptance of own-key reports at every distance -434..+434 from the clock at both uint32 extremes on a live server (high end via a crafted zero-device history record), compared with the int64-exact predicate; the same sweep through stored reports in a window straddling 2^31; (d) all states (now-offset, timer phase) of the rotation cadence under the production period with trigger, start-up threshold, half-width and window measured from the running implementation; model traces replayed against the real rotation loop"
 		run.Sample(map[string]interface{}{"genesis": pc.GenesisTime, "period": pc.Server.ReportMigrationFrequency.String(), "measured": meas})
 		run.Assumption("the rotation loop's timer fires when its period has elapsed or at most one slot late; the window check at the high end of uint32 needs a crafted history file to reach")
 		rc := run.Finish()
